@@ -29,6 +29,10 @@ CLAIMED = {
             "Kernel-checked theorems over the model of the indexed RAM bundle reader (IndexedRamBundle::parse, startup_code, get_module, the module iterator, is_ram_bundle_slice on top of scroll's Pread bounds rules): for every image that satisfies a layout predicate (header fields, startup code behind the table, every present module's bytes + NUL somewhere in the data area - any physical order, gaps allowed) parsing reports the written count and startup code, every present module without its NUL, nothing for empty slots, an index error past the table, and the iterator yields the present modules in id order (c20_*_layout); the model's own writer is an instance (c20_parse_serialize, c20_get_module, c20_past_table, c20_iter). For every byte string recognition holds iff 12 bytes with the regenerated magic lead, parsing succeeds iff recognised, every access returns a value or one of four refusals and every returned slice is a window of the buffer (c20_recognise, c20_parse_iff, c20_parse_refused, c20_total, c20_in_bounds). Tied to the code by a differential run: exhaustive small bundles in every physical order, truncation at every length, every header/table byte corrupted, fields at/around the buffer end and near 2^31/2^32, random bundles and bytes.",
             "Trusted: Lean kernel, model lean/SmVerif/Model/RamBundle.lean (scroll 0.10 bounds rules: BadOffset when offset >= len, TooBig when size > remaining; little-endian reads), harness/driver; RAM_BUNDLE_MAGIC regenerated from ram_bundle.rs on every run. Memory safety itself is Rust's (safe code + scroll); the theorems are about returned values. 64-bit usize. An empty startup code at the very end of the buffer is refused (outside the property: it demands non-empty startup code). Unbundle-to-filesystem and the file-RAM-bundle variant are not modelled.",
             "Lean 4 proof (layout predicate, list lemmas) + regenerated constant + exhaustive small-scope differential correspondence"),
+    "C15": ("7/C15",
+            "Kernel-checked theorems over the sequential model of SourceView (get_line with its processed_until/lines cache, line_count, lines(), get_line_slice): for every byte text and every finite sequence of requests issued before, get_line(i) returns the i-th piece of the text split at CRLF, LF or lone CR (nothing past the end) and never panics or hangs (c15_get_line, c15_inv, c15_line_starts), line_count is the number of pieces (c15_line_count), the iterator yields all pieces in order (c15_lines_iter), every request sequence completes (c15_no_panic), and for valid UTF-8 text get_line_slice(l, c, n) returns exactly the characters whose UTF-16 extent meets [c, c+n) - whole surrogate pairs at the end included - and nothing when the line has fewer than c+n units, for every column that is not strictly inside a surrogate pair, with no bound on c or n (c15_slice); c15_requests: a whole request sequence is answered by the stateless specification. Tied to the code by a differential run: all texts over {a, e-acute, astral, LF, CR} up to length 4 (7-8 thorough) x request orders (late line first, missing before present, count before/after, repeats) x all (line, col, span) triples incl. u32::MAX.",
+            "Trusted: Lean kernel, models lean/SmVerif/Model/{SourceView,SourceViewSlice}.lean, harness/driver; std str::chars / len_utf8 / len_utf16 / str::get as modelled; 64-bit usize. A column strictly inside a surrogate pair: the property text does not settle whether the cut pair belongs to the slice (the code starts after it; c15_slice_midpair states exactly what it returns, c15_midpair_witness the difference to the inclusive reading); such cases are compared impl-vs-model only (op sv.corr) and never raise a spec alarm. Hypotheses visible in the theorems: fewer than 2^32 lines (u32 counters of line_count / Lines) - untestable (needs a 4 GiB text).",
+            "Lean 4 proof (invariant over request sequences, UTF-8/UTF-16 decoding lemmas) + exhaustive small-scope differential correspondence"),
 }
 
 PENDING_REASON = "not claimed yet: model/theorems for this property are still being built (see DESIGN.md section 7); no check is registered rather than registering an unsound one"
